@@ -143,6 +143,11 @@ def run(c):
                          {"op": "remove", "t": "sha256", "o": "o1", "d": "h1"}, LQ_, A_("sha256", "o1", "h1"), LQ_])
         hs.append(pad + [LN_("x509"), LA_("o1", "c1"), LA_("o2", "c3"), LA_("o2", "p1"), LA_("o1", "p1"), LA_("o2", "c2"), AL_, {"op": "recode", "t": "-", "o": "-", "d": "-"},
                          LN_("sha256"), LA_("o1", "h1"), LA_("o1", "h31"), LA_("o1", "h1"), AL_, {"op": "recode", "t": "-", "o": "-", "d": "-"}])
+        # an entry held by two lists of the same shape (append-list does that) must not stand in for an entry that is nowhere
+        hs.append(pad + [A_("sha256", "o1", "h1"), A_("sha256", "o2", "h2"), LN_("sha256"), LA_("o1", "h1"), LA_("o1", "h2"), AL_, LN_("sha256"), LA_("o1", "h1"), LA_("o2", "h1"), LQ_,
+                         {"op": "listremove", "t": "-", "o": "o2", "d": "h1"}, LQ_, LA_("o2", "h2"), LQ_])
+        hs.append(pad + [{"op": "load", "t": "-", "o": "-", "d": "cross"}, LN_("sha256"), LA_("o1", "h1"), LA_("o2", "h1"), LQ_, {"op": "listremove", "t": "-", "o": "o1", "d": "h1"}, LQ_])
+        hs.append(pad + [{"op": "load", "t": "-", "o": "-", "d": "dupB"}, LN_("x509"), LA_("o1", "c1"), LA_("o1", "c2"), LQ_, LA_("o2", "c2"), LQ_])
     # histories that start from a decoded database (MC_SigDb!MCPresets)
     hl = histories_exhaustive(c, 2, load=True)
     if c.quick:
